@@ -225,6 +225,184 @@ def raw_client(port, rng, spec, seqs):
     return problems
 
 
+# ---------------------------------------------------------------- (c) connected sessions in-process vs Model.Connected
+CTAGS = [dict(name='T', ty='DINT', scalar=False, n=6, addr=None, init=[('i', 0)] * 6),
+         dict(name='S', ty='INT', scalar=False, n=4, addr=None, init=[('i', 1), ('i', 2), ('i', 3), ('i', 4)])]
+
+
+def connected_case(rng):
+    """a history of Forward Opens, connected sends (known and unknown connection ids, any sequence count) and Forward Closes"""
+    from props import logix_common as L
+    steps = []
+    nopen = 0
+    for _ in range(rng.randrange(3, 10)):
+        k = rng.random()
+        if k < 0.2 or not nopen:
+            nopen += 1
+            steps.append(('open', 0x4000 + nopen, rng.choice([1, 2])))            # connection serial, parameter variant
+        elif k < 0.85:
+            which = rng.randrange(nopen) if rng.random() < 0.85 else -1              # -1: an id nobody opened
+            seq = rng.choice([0, 1, 2, 0x7FFF, 0x8000, 0xFFFF, rng.randrange(65536)])
+            name = rng.choice(['T', 'S']); n = 6 if name == 'T' else 4
+            i = rng.randrange(n)
+            if rng.random() < 0.5:
+                cnt = rng.randrange(1, n - i + 1)
+                r = ('write', ('sym', name, i), 196 if name == 'T' else 195, cnt, [('i', rng.randrange(-99, 99)) for _ in range(cnt)])
+            elif rng.random() < 0.8:
+                r = ('read', ('sym', name, i), rng.randrange(1, n - i + 1))
+            else:
+                r = ('read', ('sym', name, n - 1), 3)                                # out of range: CIP error reply
+            steps.append(('send', which, seq, r))
+        else:
+            steps.append(('close', 0x4000 + rng.randrange(1, nopen + 1)))
+    return steps
+
+
+def connected_impl(steps):
+    """the real enip_srv_tcp + logix.process, one request at a time (the O->T id of a Forward Open is only known from its reply)"""
+    from props import c01, c02, codec_common as K, logix_common as L, enip_common as E
+    from cpppo.server.enip import logix, device, main
+    from cpppo import dotdict
+    from cpppo.server import network
+    device.lookup_reset(); logix.setup_reset()
+    im = L.Impl(488, CTAGS)
+    obs = []
+    ids = []
+
+    def frames(conn):
+        yield c01.model_enc(0, 0, [K.frame_tree(dict(cmd=101, session=0, status=0, ctx=b'c14reg__', options=0, nums=[1, 0]))])[0]
+        sess = struct.unpack('<I', conn.sent[-1][4:8])[0]
+        for st in steps:
+            if st[0] == 'open':
+                fo = dict(path=[('class', 6), ('instance', 1)], prio=10, ticks=5, ot=(0x20000002, 2000000, (500, 1, 0, 2, 0)),
+                          to=(0x20000001 + st[1], 2000000 + st[2], (500, 1, 0, 2, 0)), serial=st[1], vendor=0x1337, oserial=0xDEADBEEF, mult=3,
+                          transport=0xA3, cpath=[('port', 1, 0), ('class', 2), ('instance', 1)])
+                cmb = c01.model_enc(11, 0, [K.fo_tree(fo, K.ncp_model(False, fo['ot'][2]), K.ncp_model(False, fo['to'][2]), False)])[0]
+                pay = struct.pack('<IHHHHHH', 0, 8, 2, 0, 0, 0xB2, len(cmb)) + cmb
+                yield struct.pack('<HHII8sI', 0x6F, len(pay), sess, 0, b'c14open_', 0) + pay
+                rb = conn.sent[-1]
+                d = c01.model_dec(11, 0, [rb[24 + 16:]])[0] if rb[8:12] == b'\0\0\0\0' else None
+                if d is None or d[0][0] != 0xD4:
+                    obs.append(('open-failed', rb.hex()[:80])); ids.append(None); continue
+                ids.append(d[0][1][1][1][0][0])
+                obs.append(('opened', ids[-1]))
+            elif st[0] == 'send':
+                _, which, seq, r = st
+                cid = 0x0BADBEEF if which < 0 or ids[which] is None else ids[which]
+                req = L.py_req(r)
+                raw = bytes(logix.Logix.produce(dotdict(req)))
+                f = dict(cmd=112, session=sess, status=0, ctx=b'\0' * 8, options=0, nums=[0, 0],
+                         cpf=[dict(tid=161, num=cid), dict(tid=177, num=seq, msg=None, raw=b'')])
+                # the connected data item carries the sequence count and the request bytes
+                item = struct.pack('<H', seq) + raw
+                pay = struct.pack('<IHHHHIHH', 0, 0, 2, 0xA1, 4, cid, 0xB1, len(item)) + item
+                yield struct.pack('<HHII8sI', 0x70, len(pay), sess, 0, b'\0' * 8, 0) + pay
+                rb = conn.sent[-1]
+                if rb[8:12] != b'\0\0\0\0' or len(rb) < 24 + 22:
+                    obs.append(('send-status', struct.unpack('<I', rb[8:12])[0])); return
+                p = rb[24:]
+                obs.append(('sent', cid, p[20] | (p[21] << 8), bytes(p[22:])))
+            else:
+                fc = [78, [[[K.seg_tree(sg) for sg in [('class', 6), ('instance', 1)]]], [[], [[10, 5, st[1], 0x1337, 0xDEADBEEF],
+                                                                                            [[[K.seg_tree(sg) for sg in [('port', 1, 0), ('class', 2), ('instance', 1)]]], []]]]]]
+                fcb = c01.model_enc(11, 0, [fc])[0]
+                pay = struct.pack('<IHHHHHH', 0, 8, 2, 0, 0, 0xB2, len(fcb)) + fcb
+                yield struct.pack('<HHII8sI', 0x6F, len(pay), sess, 0, b'c14close', 0) + pay
+                rb = conn.sent[-1]
+                obs.append(('closed', struct.unpack('<I', rb[8:12])[0], rb[24 + 16] if len(rb) > 40 else None))
+
+    class Conn:
+        def __init__(self):
+            self.sent = []; self.closed = False; self.gen = frames(self)
+        def recv(self, maxlen=4096):
+            try:
+                return next(self.gen)
+            except StopIteration:
+                return b''
+        def send(self, b):
+            self.sent.append(bytes(b)); return len(b)
+        def close(self):
+            self.closed = True
+    conn = Conn()
+    srv = dotdict(); srv.control = dotdict(latency=0.0, done=False, disable=False)
+    saved = network.recv
+    network.recv = lambda c, maxlen=4096, timeout=None: c.recv(maxlen)
+    err = None
+    try:
+        try:
+            main.enip_srv_tcp(conn, ('10.14.14.14', 41400), 'c14', logix.process, server=srv)
+        except Exception as e:
+            err = type(e).__name__
+        image = L.hash_list(im.image())
+    finally:
+        network.recv = saved
+        main.connections.pop('10_14_14_14_41400', None)
+        im.close()
+    return obs, ids, err, image
+
+
+def connected_check(ctx, rng, n):
+    from props import logix_common as L
+    base = L.enc_case((488, CTAGS, []))
+    store_enc = base[1:-1]
+    names = {t['name'].lower(): i for i, t in enumerate(CTAGS)}
+    cases, meta = [], []
+    for _ in range(n):
+        steps = connected_case(rng)
+        obs, ids, err, image = connected_impl(steps)
+        enc = list(store_enc) + [len(steps)]
+        k = 0
+        for st in steps:
+            if st[0] == 'open':
+                enc += [0, ids[k] if k < len(ids) and ids[k] is not None else 0, st[1], st[2]]; k += 1
+            elif st[0] == 'send':
+                cid = 0x0BADBEEF if st[1] < 0 or st[1] >= len(ids) or ids[st[1]] is None else ids[st[1]]
+                enc += [1, cid, st[2]] + L.enc_req(st[3], names)
+            else:
+                enc += [2, st[1]]
+        cases.append(enc); meta.append((steps, obs, ids, err, image))
+    outs = core.run_model('connected', cases)
+    ndis, first, nbad = 0, None, 0
+    nsent = 0
+    for (steps, obs, ids, err, image), o in zip(meta, outs):
+        # decode the model's replies
+        mobs = []; i = 0
+        for st in steps:
+            tag = o[i]
+            if tag == 0:
+                mobs.append(('opened', o[i + 1])); i += 2
+            elif tag == 1:
+                mobs.append(('open-failed',)); i += 1
+            elif tag == 2:
+                ln = o[i + 2]; mobs.append(('sent', None, o[i + 1], bytes(o[i + 3:i + 3 + ln]))); i += 3 + ln
+            elif tag == 3:
+                mobs.append(('sent', None, o[i + 1], None)); i += 2
+            else:
+                mobs.append(('closed', 0, 0xCE)); i += 1
+        mhash = o[i]
+        w = dict(history=[(s[0],) + tuple(s[1:3]) + ((L.describe_req(s[3]),) if s[0] == 'send' else ()) for s in steps], observed=[repr(x)[:80] for x in obs], error=err)
+        # the property on the implementation: sequence echoed, reply service = request | 0x80
+        sends = [s for s in steps if s[0] == 'send']
+        got_sends = [x for x in obs if x[0] == 'sent']
+        for s, g in zip(sends, got_sends):
+            if g[2] != s[2]:
+                nbad += 1
+                ctx.violation(dict(w, sequence_sent=s[2], sequence_echoed=g[2]), 'a connected reply does not echo its request\'s sequence count'); break
+        else:
+            if len(got_sends) != len(sends) or err:
+                nbad += 1
+                if nbad <= 3:
+                    ctx.violation(w, 'a connected request was not answered (%d of %d, %s)' % (len(got_sends), len(sends), err))
+                continue
+            canon = [('sent', None, x[2], x[3]) if x[0] == 'sent' else x for x in obs]
+            if canon != mobs or image != mhash:
+                ndis += 1
+                first = first or dict(w, model=[repr(x)[:80] for x in mobs], store_equal=image == mhash)
+            else:
+                nsent += len(sends)
+    return ndis, first, nbad, nsent
+
+
 def run(ctx):
     import logging
     logging.getLogger().setLevel(logging.CRITICAL + 10)
@@ -266,15 +444,23 @@ def run(ctx):
             proc.wait(5)
         except Exception:
             proc.kill()
+    cdis, cfirst, cbad, csent = connected_check(ctx, rng, 150 if ctx.thorough else 40)
+    nbad += cbad
+    nops += csent
+    if cdis and not cbad:
+        ctx.unresolved('correspondence Forward Open / SendUnitData / Forward Close through logix.process = Model.Connected.crun', cfirst)
+    elif cdis:
+        ctx.broken.append('correspondence connected sessions = Model.Connected.crun')
+        ctx.notes.append(repr(cfirst)[:1500])
     cov['evaluations'] = nops
     cov['distinct_nontrivial'] = nops
     cov['exhaustive'] = False
     cov['rule'] = ('one simulator subprocess with DINT[300], INT[250], SINT[8], REAL[5]; pylogix histories of %s operations (single / counted reads incl. 121-123, 244, 250 element '
                    'arrays, multi-reads, single and array writes with boundary values, out-of-range and unknown tags) with a final whole-array sweep, again with the connection '
                    'sequence counter started at 0x7FF0 and at 0xFFF0; a raw client built from the reference encoder/decoder: Register, Forward Open, %d connected reads/writes with '
-                   'sequence counts 1,2,3,0x7FFE..0x8001,0xFFFE,0xFFFF,0,1 and random ones, Forward Close, Unregister; then pylogix re-reads what the raw client wrote'
+                   'sequence counts 1,2,3,0x7FFE..0x8001,0xFFFE,0xFFFF,0,1 and random ones, Forward Close, Unregister; then pylogix re-reads what the raw client wrote; in-process: generated connected histories (several Forward Opens, sends on known and unknown connection ids with boundary sequence counts, Forward Closes) through enip_srv_tcp + logix.process against Model.Connected.crun'
                    % ('600+60+60' if ctx.thorough else '120+60+60', len(seqs)))
-    cov['impl_model_disagreements'] = 0
+    cov['impl_model_disagreements'] = cdis
     cov['impl_property_failures'] = nbad
     ctx.sample(dict(tags=TAGS))
     ctx.assumptions += ['pylogix 1.1.6 as installed is the independent client; its status strings (Success / Path destination unknown / Unknown error 255) are taken as the documented statuses',
